@@ -157,6 +157,42 @@ func init() {
 				mon.Hit("C04", "pipeline-filter-violated", c04Detail(cur, i, r.Command))
 			}
 		}
+		// the exported gate the CLI applies to last-resort recovery answers, on the whole command list in database order
+		// (runs of adjacent entries that must be rejected included): what it keeps is exactly what the predicate admits
+		if len(prev)%4 == 1 && len(cur.DB.Commands) > 0 {
+			all := make([]database.SearchResult, len(cur.DB.Commands))
+			for i := range cur.DB.Commands {
+				all[i] = database.SearchResult{Command: &cur.DB.Commands[i], Score: 1}
+			}
+			kept := database.FilterResults(all, cur.Opts)
+			var want []*database.Command
+			for i := range cur.DB.Commands {
+				c := &cur.DB.Commands[i]
+				if ok, _ := c04Allowed(c, host, cur.Opts); ok && (!cur.Opts.PipelineOnly || c04IsPipeline(c)) {
+					want = append(want, c)
+				}
+			}
+			same := len(kept) == len(want)
+			for i := 0; same && i < len(want); i++ {
+				same = kept[i].Command == want[i]
+			}
+			if !same {
+				for i, r := range kept {
+					if ok, _ := c04Allowed(r.Command, host, cur.Opts); !ok {
+						d := c04Detail(cur, i, r.Command)
+						d["path"] = "FilterResults (the gate of the CLI's recovery answers) over the whole command list"
+						mon.Hit("C04", "platform-filter-violated", d)
+						break
+					} else if cur.Opts.PipelineOnly && !c04IsPipeline(r.Command) {
+						d := c04Detail(cur, i, r.Command)
+						d["path"] = "FilterResults (the gate of the CLI's recovery answers) over the whole command list"
+						mon.Hit("C04", "pipeline-filter-violated", d)
+						break
+					}
+				}
+			}
+			mon.Tag("c04-filterresults-whole-list")
+		}
 		// cached answers: the same query under a run of filter-switch variants on ONE cache, most
 		// permissive first; whatever was cached for another variant, each answer must satisfy ITS switches
 		if len(cur.Results) > 0 && len(prev)%3 == 0 {
@@ -245,7 +281,10 @@ func init() {
 var c04Markers = []string{"quokka", "zephyr", "kumquat", "xylophone", "jabberwock", "wombat", "narwhal", "ocelot",
 	"platypus", "gazpacho", "bivouac", "fjord"}
 
-var c04PlatformSets = [][]string{{"windows"}, {"linux", "macos"}, {"darwin"}, {"LINUX"}, {"cross-platform"}}
+var c04PlatformSets = [][]string{{"windows"}, {"linux", "macos"}, {"darwin"}, {"LINUX"}, {"cross-platform"},
+	// every platform the tool knows by name, at once: still a platform request (entries of other systems stay out,
+	// --no-cross-platform still applies), not a synonym of --all-platforms
+	{"linux", "macos", "windows"}, {"Windows", "MACOS", "linux", "linux"}}
 
 // dropLetters removes one or two inner letters: the result is a proper subsequence of w (so the typo
 // matcher accepts w) and no word of the database.
